@@ -14,6 +14,8 @@ open Emboss.Tok
 #print axioms C10_table_wf
 #print axioms C10_table_reserved_syms
 #print axioms C10_gaps_are_whitespace
+#print axioms C10_priority_is_longest
+#print axioms C10_longest_match_documented
 #print axioms C10_word_run
 #print axioms C10_word_classes
 #print axioms C10_number_classes_partial
